@@ -22,7 +22,8 @@ CLAIM = {
             "not-a-knot: third derivative continuous at the second and last-but-one knot; periodic: first and second derivative "
             "agree at the two ends - and are the slopes the evaluation uses; (iii) with y given at call time instead, _interp computes "
             "the slopes from the stored solved matrix and the given y, they satisfy the same conditions, and the value equals the one "
-            "obtained with these slopes stored at construction. BOUNDED in the tensor shapes (all values; reported "
+            "obtained with these slopes stored at construction; (iv) (i) and (ii) also for y (and slopes) with a batch dimension of "
+            "every size, for every line of the batch. BOUNDED in the tensor shapes (all values; reported "
             "under bounded_obligations, not counted as proved; 3 to 6 knots, 1 to 7 queries, batch 2): y given at call time or "
             "twice (warning) or never (RuntimeError), samples given in any order, batched y and x, reuse of one object with "
             "different y, every extrapolation mode (nan, constant, callable, bound, mirror, periodic) at exactly the outside "
@@ -236,7 +237,7 @@ def unit_interp(method, bc, n, nq, y_at):
     return kit.run_unit("%s%s[n=%d,nq=%d,y_at_%s]" % (method, "/" + bc if method != "linear" else "", n, nq, y_at), run)
 
 
-def unit_interp_generic(method):
+def unit_interp_generic(method, batched=False):
     """the evaluation of LinearInterp1D / CubicSpline1D (given the slopes) for EVERY number of knots and queries:
     tensors of symbolic length (LAM domain), a generic query position p and a generic interval j"""
     from pydv import lam
@@ -246,10 +247,22 @@ def unit_interp_generic(method):
         c = ctx()
         nr, nq = fresh_int("nr"), fresh_int("nq")
         c.assume(z3.And(nr.e >= 2, nq.e >= 1))
-        x, y, ks, q = lam.sym("x", nr), lam.sym("y", nr), lam.sym("k", nr), lam.sym("q", nq)
+        x, q = lam.sym("x", nr), lam.sym("q", nq)
+        bq = ()
+        if batched:
+            # y (and the slopes) carry a batch dimension of symbolic size; obligations are stated for a generic batch index
+            nb = fresh_int("nb")
+            c.assume(nb.e >= 1)
+            bq = (z3.Int("b"),)
+            yv = z3.Function("y", z3.IntSort(), z3.IntSort(), z3.RealSort())
+            kv = z3.Function("k", z3.IntSort(), z3.IntSort(), z3.RealSort())
+            y = lam.LT((nb, nr), lambda ix: yv(ix[-1], ix[0]), "real")
+            ks = lam.LT((nb, nr), lambda ix: kv(ix[-1], ix[0]), "real")
+        else:
+            y, ks = lam.sym("y", nr), lam.sym("k", nr)
         T = lam.make_torch()
         m = mods()
-        tag = "any_size[%s]" % method
+        tag = "any_size[%s%s]" % (method, ",batched_y" if batched else "")
         with kit.patched(m["i1"], "torch", T), kit.patched(m["bc"], "torch", T):
             cls = m["i1"].LinearInterp1D if method == "linear" else m["i1"].CubicSpline1D
             obj = object.__new__(cls)
@@ -259,16 +272,16 @@ def unit_interp_generic(method):
             return
         many = c.branch(nq.e > nr.e)          # which of the two internal formulas ran on this path
         tag = tag + ("[more queries than knots]" if many else "[not more queries than knots]")
-        c.check(tag + ":one_value_per_query", isinstance(out, lam.LT) and len(out.shape) == 1 and
-                z3.is_true(z3.simplify(lam._z(out.shape[0]) == nq.e)))
+        c.check(tag + ":one_value_per_query", isinstance(out, lam.LT) and len(out.shape) == 1 + len(bq) and
+                lam._same_dim(out.shape[-1], nq.e) and (not batched or lam._same_dim(out.shape[0], nb.e)))
         searches = c.ghost.get("lam_searches", [])
         c.check(tag + ":one_interval_search", len(searches) == 1)
         if len(searches) != 1:
             return
         rec = searches[0]
         X = lambda i: x.fn((i,))
-        Y = lambda i: y.fn((i,))
-        K = lambda i: ks.fn((i,))
+        Y = lambda i: y.fn(bq + (i,))
+        K = lambda i: ks.fn(bq + (i,))
         pp, j = z3.Int("p"), z3.Int("j")
         qp = q.fn((pp,))
         s = rec["f"](pp)
@@ -276,7 +289,7 @@ def unit_interp_generic(method):
         # clamp(s, 1, nr-1): the very term the code builds (same constructor, so the same AST)
         cl = lam.clamp(lam.LT((nq,), lambda idx: rec["f"](idx[-1]), "int"), 1, nr - 1).fn((pp,))
         r = z3.Int("idxr")
-        outp = out.fn((pp,))
+        outp = out.fn(bq + (pp,))
         outr = z3.substitute(outp, (cl, r))
         c.check(tag + ":result_depends_on_the_search_only_through_the_clamped_index", "ss0" not in outr.sexpr(), detail=outr.sexpr()[:200])
         pts = [z3.IntVal(0), n - 1, j, j + 1, s - 1, s, cl - 1, cl]
@@ -286,10 +299,10 @@ def unit_interp_generic(method):
                 if not z3.eq(a, b):
                     mono.append(z3.Implies(z3.And(a >= 0, b < n, a < b), X(a) < X(b)))   # strictly increasing knots, instantiated
         facts = [n >= 2, pp >= 0, pp < nq.e, j >= 0, j <= n - 2, X(j) <= qp, qp <= X(j + 1), X(z3.IntVal(0)) <= qp, qp <= X(n - 1)] \
-            + lam.search_facts(rec, pp) + mono
+            + lam.search_facts(rec, pp) + mono + ([bq[0] >= 0, bq[0] < nb.e] if batched else [])
         # every index handed to gather is within the range of the gathered tensor
         for gk, g in enumerate(c.ghost.get("lam_gathers", [])):
-            ix = g["index"].fn((pp,))
+            ix = g["index"].fn((bq if len(g["index"].shape) > 1 else ()) + (pp,))
             st_, be, det = discharge(facts, z3.And(ix >= 0, ix < lam._z(g["n"])))
             if st_ != "proved":
                 c.prove(tag + ":gather_indices_are_within_range", z3.Implies(z3.And(*facts), z3.And(ix >= 0, ix < lam._z(g["n"]))))
@@ -313,7 +326,7 @@ def unit_interp_generic(method):
             prove_with(c, tag + ":value_is_the_interpolant_on_every_interval_containing_the_query[%s]" % nm, z3.simplify(g) == z3.simplify(w_), hyps)
         # sample values at the sample positions follow: q = x_j is in interval j (or j-1 for the last knot)
         c.prove("canary", z3.BoolVal(False), kind="canary")
-    return kit.run_unit("any_size[%s]" % method, run)
+    return kit.run_unit("any_size[%s%s]" % (method, ",batched_y" if batched else ""), run)
 
 
 class _KSeq(object):
@@ -465,8 +478,9 @@ def unit_slopes_any_size_late_y(bc):
     return kit.run_unit("any_size[slopes/%s,y_at_call]" % bc, run)
 
 
-def unit_slopes_any_size(bc):
-    """CubicSpline1D.__init__ on knots and values of symbolic length: the slope system for EVERY number of knots"""
+def unit_slopes_any_size(bc, batched=False):
+    """CubicSpline1D.__init__ on knots and values of symbolic length: the slope system for EVERY number of knots
+    (batched: y with a batch dimension of symbolic size; the conditions hold for the slopes of every line of y)"""
     from pydv import lam
     from pydv.core import fresh_int
     from props import anysize as A
@@ -477,20 +491,33 @@ def unit_slopes_any_size(bc):
         n = nr.e
         c.assume(n >= 3)
         x, y = lam.sym("x", nr), lam.sym("y", nr)
-        tag = "any_size[slopes/%s]" % bc
+        lead = ()
+        yfull = y
+        if batched:
+            nb = fresh_int("nb")
+            c.assume(nb.e >= 1)
+            bb = z3.Int("b")
+            c.assume(z3.And(bb >= 0, bb < nb.e))
+            lead = (bb,)
+            yv = z3.Function("y", z3.IntSort(), z3.IntSort(), z3.RealSort())
+            yfull = lam.LT((nb, nr), lambda ix: yv(ix[-1], ix[0]), "real")
+            y = A.Seq(lambda i: yv(i, bb))          # the generic line
+            y.fn = lambda ix: yv(ix[-1], bb)
+            y.uf = yv
+        tag = "any_size[slopes/%s%s]" % (bc, ",batched_y" if batched else "")
         with A.lam_world() as m:
             with kit.patched(m["i1"], "check_periodic_value", lambda y_: None):     # its contract: y[0] == y[-1] (a precondition below)
-                ok, obj = kit.call_or_fail(c, tag + ":constructor_does_not_raise", lambda: m["i1"].CubicSpline1D(x, y, bc_type=bc))
+                ok, obj = kit.call_or_fail(c, tag + ":constructor_does_not_raise", lambda: m["i1"].CubicSpline1D(x, yfull, bc_type=bc))
         if not ok:
             return
-        K = any_size_slope_conditions(c, tag, bc, x, y, n, {"x": x.uf, "y": y.uf})
+        K = any_size_slope_conditions(c, tag, bc, x, y, n, {"x": x.uf, "y": y.uf}, lead=lead)
         if K is None:
             return
         # the slopes the evaluation uses are these
         p = z3.Int("p")
-        c.check(tag + ":the_evaluation_uses_these_slopes", isinstance(obj.ks, lam.LT) and z3.eq(z3.simplify(obj.ks.fn((p,))), z3.simplify(K[p])))
+        c.check(tag + ":the_evaluation_uses_these_slopes", isinstance(obj.ks, lam.LT) and z3.eq(z3.simplify(obj.ks.fn(lead + (p,))), z3.simplify(K[p])))
         c.prove("canary", z3.BoolVal(False), kind="canary")
-    return kit.run_unit("any_size[slopes/%s]" % bc, run)
+    return kit.run_unit("any_size[slopes/%s%s]" % (bc, ",batched_y" if batched else ""), run)
 
 
 def unit_no_y(method):
@@ -847,6 +874,7 @@ def units(tier):
         add("cspline/%s[n=%d,nq=%d,y_at_%s]" % (bc, n, nq, y_at), lambda bc=bc, n=n, nq=nq, y_at=y_at: unit_interp("cspline", bc, n, nq, y_at))
     for mth in ("linear", "cspline"):
         add("any_size[%s]" % mth, lambda mth=mth: unit_interp_generic(mth))
+        add("any_size[%s,batched_y]" % mth, lambda mth=mth: unit_interp_generic(mth, batched=True))
         add("rejections[%s]" % mth, lambda mth=mth: unit_no_y(mth))
         for perm, y_at in (((2, 0, 3, 1), "init"), ((2, 0, 3, 1), "call"), ((3, 2, 1, 0), "call"), ((1, 2, 0), "init")):
             add("unsorted[%s,%s,y_at_%s]" % (mth, "".join(map(str, perm)), y_at), lambda mth=mth, perm=perm, y_at=y_at: unit_unsorted(mth, perm, y_at))
@@ -856,6 +884,7 @@ def units(tier):
     for bc in ("natural", "clamped", "not-a-knot", "periodic"):
         add("any_size[slopes/%s]" % bc, lambda bc=bc: unit_slopes_any_size(bc))
         add("any_size[slopes/%s,y_at_call]" % bc, lambda bc=bc: unit_slopes_any_size_late_y(bc))
+        add("any_size[slopes/%s,batched_y]" % bc, lambda bc=bc: unit_slopes_any_size(bc, batched=True))
     for bc in ("natural", "clamped", "not-a-knot"):
         add("batched_x[cspline/%s]" % bc, lambda bc=bc: unit_batched_x(bc))
     for mth, mode in (("linear", "nan"), ("linear", "constant"), ("linear", "tensor_constant"), ("linear", "callable"), ("linear", "bound"),
